@@ -7,7 +7,7 @@ def splitAt2 (toks : List String) (sep : String) : List String × List String :=
 
 def specOf (id : String) : Option (Case → List OpObs × Bytes → Bool) :=
   match id with
-  | "C02" => some Spec.C02 | "C03" => some Spec.C03 | "C04" => some Spec.C04 | "C05" => some Spec.C05 | "C06" => some Spec.C06
+  | "C02" => some Spec.C02 | "C03" => some Spec.C03 | "C04" => some Spec.C04 | "C05" => some Spec.C05 | "C08" => some Spec.C08 | "C06" => some Spec.C06
   | _ => none
 
 /-- `none`: not a command of this cluster -/
